@@ -124,6 +124,9 @@ class TrioBackend(AsyncNetworkBackend):
             trio.TooSlowError: ConnectTimeout,
             trio.BrokenResourceError: ConnectError,
             OSError: ConnectError,
+            # A host name that cannot be encoded for the resolver (for example a
+            # label of more than 63 characters) cannot be connected to.
+            UnicodeError: ConnectError,
         }
         with map_exceptions(exc_map):
             with trio.fail_after(timeout_or_inf):
